@@ -105,6 +105,23 @@ check("C10",
       "TLA+ spec (SelLimits.tla) model-checked by TLC (invariants + action properties) + TLC validation of recorded breeding histories",
       "DESIGN.md C10")
 
+check("C03",
+      "TLC model-checks a single labelled axis as a state machine (pool of 4 entities with duplicated names and groups, "
+      "length <=3; select/delete/insert/append/reorder/sort/group/ungroup with every argument numpy gives a meaning to) for "
+      "the group-cache invariant GroupedOK and the action property CacheOnlyFromGroup; the as-written variant (reorder keeps "
+      "the cache) must yield TLC's Group->Reorder counterexample. Random operation histories are run on 14 concrete classes "
+      "(base taxa/variant/trait matrices, taxa-variant, phased, taxa-trait, square-taxa, square-taxa-trait, genotype, phased "
+      "genotype, two coancestry and two variance classes) under four label-presence patterns; every step is executed in its "
+      "axis-specific and axis-generic (positive/negative axis) forms, mutating and non-mutating, and each variant is "
+      "validated by TLC against the numpy-argument semantics of the spec operators: entities after the operation, every label "
+      "array attached to its entity, presence of optional arrays, truth of any reported grouping, other axes untouched, "
+      "operand immutability, data cells = injective code of the entity ids.",
+      "Entity ids are decoded from the data cells; valid-argument alphabet per DESIGN Appendix A; sort order is only "
+      "required to be non-decreasing in the axis keys (either priority). Three families of genuine defects are listed as "
+      "known findings (regex keys naming kind/defining method/axis/clause/field).",
+      "TLA+ spec (LabelledMatrix.tla) model-checked by TLC + TLC validation of every step of recorded operation histories on the real classes",
+      "DESIGN.md C03")
+
 def build():
     checks = []
     for pid in sorted(CHECKS):
